@@ -41,7 +41,7 @@ PROPS = {
         "required_theorems": ["resolve_spec", "resolve_found_iff", "resolve_multiple_iff", "resolve_notFound_iff", "resolve_full_id",
                               "combine_split", "combine_split_gen", "combine_length", "combine_total", "mask_counts",
                               "resolveComment_unique", "resolveComment_never_other", "resolveComment_notFound",
-                              "candidate_of_combined", "gen_masks_are_model"],
+                              "candidate_of_combined", "gen_masks_are_model", "select_unique", "select_multiple", "select_entity_cases", "select_stale"],
         "slices": ["C13"],
         "rule": "ids: random 64-hex primary/secondary pairs x every prefix length 0..64 plus non-ASCII prefixes; resolve: real bug/"
                 "comment/identity populations in a RepoCache (mock repo), every id x prefix lengths {0,1,2,3,4,7,16,63,64} incl. near "
